@@ -327,7 +327,7 @@ func c07Mutation(ctx *Ctx, res *CaseResult, dir string, w *Workload, sched simrt
 				lastLang = strings.TrimSuffix(strings.TrimPrefix(msg, "Running '"), "' jennies...")
 			}
 		}
-		p, err := codegen.PipelineFromFile(cfg, codegen.Parameters(w.Params), codegen.Reporter(reporter))
+		p, err := codegen.PipelineFromFile(cfg, codegen.Parameters(w.ExtraParams()), codegen.Reporter(reporter))
 		if err != nil {
 			return err
 		}
@@ -463,6 +463,9 @@ func init() {
 				w := c07Workload(r, ctx, dir, 2, 4)
 				if r.Chance(1, 8) {
 					w.Languages = GenLanguages(r, 5, 7)
+				}
+				if sr := r.Side("shared-option"); sr.Chance(1, 10) {
+					w = GenSharedOptionWorkload(sr)
 				}
 				sched := simrt.Schedule{Default: Pick(r, []simrt.Policy{simrt.Canonical, simrt.Reverse, simrt.Shuffle}), Seed: r.U64(), KeyOrder: Shuffled(r, allLanguages)}
 				sample["workload"], sample["language_order"] = w.Name, sched.KeyOrder
